@@ -51,6 +51,12 @@ def _w():
     idf2 = fn(2, [(4, 'int')], 'int', ('ret', V(4)))
     vf = fn(3, [(5, 'int')], 'void', seq(P(V(5)), ('expr', CALL(2, N(7)))))
     w['c03:void-call-value'] = (prog([idf2, vf, MAIN]), {3: [P(CALL(3, N(3))), ('assert', B(True))]})
+    # arrays: the evaluator evaluates the FIRST element of an array literal twice (once "to determine the element type", once when
+    # it fills the array): a printing call there prints twice at compile time, once in the compiled program
+    pr = fn(2, [(3, 'int')], 'int', seq(P(V(3)), ('ret', V(3))))
+    al = fn(4, [(5, 'arr'), (6, 'int')], 'int', ('ret', ('bin', 'add', ('at', V(5), V(6)), ('len', V(5)))))
+    w['c03:array-literal-first-element-twice'] = (prog([pr, al, MAIN], [(1, 'arr', ('arr', [N(4), N(5)]))]),
+                                                  {4: [('let', False, 7, 'arr', ('arr', [CALL(2, N(8)), N(9)])), ('assert', EQ(CALL(4, V(7), N(0)), N(10)))]})
     return w
 
 
@@ -75,6 +81,15 @@ def _corpus():
     c['c06:corpus:helper-called-in-loop-first-false'] = (prog([idf, hk, MAIN]), {5: [('for', 8, N(0), N(3), ('expr', CALL(5, V(8)))), ('assert', B(True))]})
     hf = fn(5, [], 'int', seq(('for', 6, N(0), N(4), ('assert', ('bin', 'ge', V(6), N(3)))), ('ret', N(7))))
     c['c06:corpus:helper-for-all-but-last-false'] = (prog([idf, hf, MAIN]), {5: [('assert', EQ(CALL(5), N(7)))]})
+    # arrays inside names_apart: literals with a call-free first element, at / array_length on a parameter and on a global, printing;
+    # the second assertion is false ((f4 v1 0) is 4 + 2)
+    pr = fn(2, [(3, 'int')], 'int', seq(P(V(3)), ('ret', V(3))))
+    al = fn(4, [(5, 'arr'), (6, 'int')], 'int', ('ret', ('bin', 'add', ('at', V(5), V(6)), ('len', V(5)))))
+    parr = prog([pr, al, MAIN], [(1, 'arr', ('arr', [N(4), N(5)]))])
+    c['c06:corpus:array-element-assertion-false'] = (parr, {4: [('let', False, 7, 'arr', ('arr', [N(7), CALL(2, N(8)), N(9)])), P(V(7)),
+                                                                ('assert', EQ(CALL(4, V(7), N(1)), N(11))), ('assert', EQ(CALL(4, V(1), N(0)), N(7)))]})
+    # an index out of range inside a shadow test: the evaluator ends nanoc with exit status 1 on the spot -- no executable
+    c['c06:corpus:out-of-range-in-shadow-test'] = (parr, {4: [P(N(1)), ('assert', EQ(CALL(4, V(1), N(2)), N(0)))]})
     return c
 
 
